@@ -318,7 +318,7 @@ def _patterns():
 boot_draw = st.one_of(
     st.just(None), st.just(None), st.just(None),
     st.fixed_dictionaries({
-        'file': st.sampled_from(['boot.img', 'boot.img', 'boot.img', 'eltorito.bin', 'isolinux/isolinux.bin']),
+        'file': st.sampled_from(['boot.img', 'boot.img', 'eltorito.bin', 'isolinux/isolinux.bin', 'boot/isolinux.bin']),
         'catalog': st.sampled_from(['boot.cat', 'boot.cat', 'boot.cat', 'boot.catalog', 'isolinux/boot.cat']),
         'load_size': st.sampled_from([None, 4, 1]),
         'info_table': st.booleans(),
@@ -336,6 +336,7 @@ draw_st = st.fixed_dictionaries({
     'volid': st.sampled_from(['', '', '', 'CDROM', 'MY_VOLUME_1', 'CDROM', 'VOLUME_ID_16_CHR', 'V' * 32]),
     'iso_extract': st.sampled_from([False, False, False, True]),
     'spell': st.sampled_from([0, 0, 1, 2, 3]),
+    'bootcopy': st.sampled_from([0, 0, 1, 2, 3]),
     'chain': st.sampled_from([0, 0, 0, 0, 1, 2, 3, 5, 7, 8, 8, 9, 9]),
     'chain_names': st.lists(st.sampled_from(['d', 'lib', 'AB', 'ab', 'sub', 'n', 'deep', 'x1', 'Data', 'data', 'ü', 'long_directory_name']),
                             min_size=9, max_size=9),
@@ -376,6 +377,9 @@ def build_case(d):
             add('/'.join(parts[:i]), 'dir')
         add(opts['boot']['file'], 'file', content={'seed': 999983, 'size': 2048})
         files.append({'seed': 999983, 'size': 2048})     # so that 'dup' entries can be copies of the boot image
+        if d.get('bootcopy') and opts['dups']:
+            # an ordinary file with the boot image's contents in the root: found before a boot image that lies in a directory
+            add(['copy.bin', 'a_copy.bin', 'zcopy.bin'][d['bootcopy'] % 3], 'file', content={'seed': 999983, 'size': 2048})
         cparts = opts['boot']['catalog'].split('/')
         for i in range(1, len(cparts)):
             add('/'.join(cparts[:i]), 'dir')
